@@ -17,6 +17,14 @@ def run(chk):
                   strat=lambda g: (g['lab']['sort'], g['lab']['reply']['k'], g['lab']['from']['k'],
                                    len(g['allowed'][0]['lab']['listing']), bool(g['pre']['strays']),
                                    len(g['cfg']['mounted'])))
+    # the index given to an entry must not depend on its neighbours being well-formed: restores (every sort mode) from a
+    # trash that also holds undated entries, infos without Path and files that are no infos
+    groups = [g for g in stages.generate(chk, 'restore-among-malformed', 'Init_Junk', 'Next_Junk', dict(common.C, MaxObj=9, GenLevel=1))
+              if g['lab']['cmd'] == 'restore']
+    stages.transition_tests(chk, 'restore-among-malformed', groups, sample=400 if quick else None, per_stratum=3,
+                            strat=lambda g: (g['lab']['sort'], str(g['lab']['reply']), len(g['pre']['junk']),
+                                             any(i['date'] == -1 for i in g['pre']['items'])),
+                            opts_fn=lambda g, seed: {'shim': {'permute': True}})
 
 
 def replay(path):
